@@ -28,7 +28,11 @@ type KnownFile struct {
 
 func loadKnown() *KnownFile {
 	kf := &KnownFile{}
-	b, err := os.ReadFile("/verif/known_findings.json")
+	path := "/verif/known_findings.json"
+	if p := os.Getenv("VERIF_KNOWN"); p != "" {
+		path = p // used by the self-test only
+	}
+	b, err := os.ReadFile(path)
 	if err != nil {
 		return kf
 	}
@@ -276,6 +280,15 @@ func (rep *Report) finish(evFile string) int {
 		}
 		pend = append(pend, p)
 	}
+	// failed overflow obligations with a model: instrument the flagged operation for the replay
+	var ovf []*VC
+	for _, p := range pend {
+		if p.kf == nil && p.test != nil && p.vc.Kind == "safe.overflow" {
+			ovf = append(ovf, p.vc)
+		}
+	}
+	overlayReplace = map[string]string{}
+	instrumentOverflow(w, ovf, filepath.Join(rep.outDir, "instr"))
 	verdicts := map[string]string{}
 	testOut := ""
 	if len(tests) > 0 {
@@ -347,8 +360,13 @@ func (rep *Report) finish(evFile string) int {
 			if (strings.HasPrefix(vc.Kind, "ensures") || strings.HasPrefix(vc.Kind, "expect")) && v == "fail" {
 				reproduced = true
 			}
-			if (strings.HasPrefix(vc.Kind, "safe.") || strings.HasPrefix(vc.Kind, "call@")) && v == "panic" {
+			if (strings.HasPrefix(vc.Kind, "safe.") || strings.HasPrefix(vc.Kind, "call@")) && v == "panic" && vc.Kind != "safe.overflow" {
 				reproduced = true
+			}
+			if vc.Kind == "safe.overflow" && v == "overflow" {
+				reproduced = true
+				rec["overflow_observed"] = verdicts[p.test.Name+"#detail"]
+				rec["replay_instrumentation"] = "the flagged operation was replaced by a math/big-checked copy in an overlay of the source file"
 			}
 			if (strings.HasPrefix(vc.Kind, "ensures") || strings.HasPrefix(vc.Kind, "expect")) && v == "panic" {
 				reproduced = true
